@@ -38,7 +38,7 @@ func genC15(rt *rapid.T) *c15Case {
 	p.TimeoutMs = oneOf(rt, "timeout", 40, 120)
 	p.DelayMs = oneOf(rt, "delay", 0, 1, 5)
 	p.Queries = rapid.IntRange(0, 5).Draw(rt, "queries")
-	p.E2e = rapid.IntRange(0, 8).Draw(rt, "e2e")
+	p.E2e = rapid.IntRange(0, 10).Draw(rt, "e2e")
 	p.ReverseDns = rapid.Bool().Draw(rt, "rdns")
 	p.PublicIP = rapid.Bool().Draw(rt, "pubip")
 	c.Rq.Fetcher = oneOf(rt, "fetcher", "", "", "error", "slow")
@@ -50,6 +50,8 @@ func genC15(rt *rapid.T) *c15Case {
 	if oneOf(rt, "http", false, false, true) {
 		c.Rq.HTTP = true
 		p.MinTTL, p.DelayMs = 1, 50
+		// the counts arrive as text: plain, zero-padded or signed decimals (008 is eight)
+		p.NumStyle = oneOf(rt, "num_style", "", "", "zeros", "plus")
 		if c.Rq.CancelAtUs > 0 {
 			c.Rq.CancelAtUs = 0
 		}
